@@ -36,6 +36,7 @@ import Gama.Lemmas.C06Reset
 import Gama.Lemmas.C06ResetEval
 import Gama.Lemmas.C06Mono
 import Gama.Lemmas.C06Glue
+import Gama.Lemmas.C06PointMono
 namespace Gama.Props.C06
 variable {ι : Type} [DecidableEq ι]
 open Gama Gama.Cogo Gama.Median Gama.GN Gama.C06R Gama.C06L Gama.Acord Gama.C06A
@@ -1046,5 +1047,28 @@ theorem C06_more_obs_stop_rule_witness :
     (C06S.roundsO id C06S.Toy.algs true 3 C06S.Toy.init).c = true :=
   have h := C06S.acord_more_obs_execute_not_monotone
   ⟨h.1, h.2.1, h.2.2.2.2.2.1, h.2.2.2.2.1, h.2.2.2.2.2.2.1, h.2.2.2.2.2.2.2.2.2⟩
+
+/-- **clause 6 for ONE point of AcordIntersection** (what `aiMono` rests on): `ApproxPoint::calculation` on the
+    arranged observations — every pair i < j, the six intersection classes with their small-angle guards,
+    Select_solution_g2d, Statistics_g2d — is monotone in the list for exact observations: a unique solution from `sm`
+    ⇒ the true point from every exact list `sm'` that contains `sm` as a sub-list (observations inserted anywhere),
+    same point list, same limit.  There is no "pair intersected first": all pairs are intersected, a guarded pair adds
+    no candidate and refuses nothing, and an inserted observation that decides a selection earlier decides it for
+    the true point.  What is still missing for `aiMono` itself (monotonicity of `arrange`, of the guards in the
+    limit, the lock-step of the walks over the sorted missing ids) is listed in `Lemmas/C06PointMono.lean`. -/
+theorem C06_acord_intersection_point_monotone {ι : Type} [DecidableEq ι] (X : Pt ℝ) (pd : PD ι ℝ) (sal : ℝ)
+    (hsal : 0 < sal) {sm sm' : List (Inter.AObs ι ℝ)} (hsub : sm.Sublist sm')
+    (hsm' : ∀ a ∈ sm', C06I.ArrOK X pd a) (p : Pt ℝ) (h : Inter.apCalc pd sal sm = some p) :
+    Inter.apCalc pd sal sm' = some X :=
+  C06I.apCalc_mono X pd sal hsal hsub hsm' p h
+
+/-- X = (0, 1): from [distance to A, direction from C] alone (one pair) and hence, by the theorem, from the list with
+    the distance to B inserted (three pairs, one of them with two candidates) -/
+example : C06RD.rArrSmall.Sublist C06RD.rArr ∧ (∀ a ∈ C06RD.rArr, C06I.ArrOK (⟨0, 1⟩ : Pt ℝ) C06RD.rPd a) ∧
+    Inter.apCalc C06RD.rPd Cogo.salDefault C06RD.rArrSmall = some ⟨0, 1⟩ ∧
+    Inter.apCalc C06RD.rPd Cogo.salDefault C06RD.rArr = some ⟨0, 1⟩ :=
+  ⟨C06RD.rArrSmall_sublist, C06RD.rArr_ok, C06RD.apCalc_small_eval,
+   C06_acord_intersection_point_monotone _ _ _ (by unfold Cogo.salDefault; norm_num [Scalar.ofSci]) C06RD.rArrSmall_sublist
+     C06RD.rArr_ok _ C06RD.apCalc_small_eval⟩
 
 end Gama.Props.C06
